@@ -9,30 +9,50 @@ EXTENDS Integers, Sequences, SequencesExt, FiniteSets, TLC
 CONSTANTS Docs,          \* document identifiers
           Parses,        \* subset of Docs that parse
           MinOK,         \* subset of Docs with the minimum content
-          MaxLoads
+          MaxLoads,
+          ChanCap        \* capacity of the channel between the file loader and the update loop (1 in yaml.go / json.go)
 
 VARIABLES hist,          \* documents fed so far
-          published,     \* sequence of [doc, val]: what the loader handed out, in order
-          current        \* what is in force: the last published value (or "none")
-vars == << hist, published, current >>
+          published,     \* sequence of [doc, val]: what the file loader handed out, in order
+          current,       \* the last published value (or "none")
+          chan,          \* published values the update loop of loader.Loader has not taken yet
+          inforce,       \* what the update loop last installed (providers + filters): what lookups are answered from
+          ninst          \* number of installs so far
+vars == << hist, published, current, chan, inforce, ninst >>
 
 Good(d) == d \in Parses /\ d \in MinOK
 Fresh(d) == << "config-of", d >>            \* abstract: a function of the document alone
 
-Init == hist = <<>> /\ published = <<>> /\ current = << "none" >>
+Init == hist = <<>> /\ published = <<>> /\ current = << "none" >> /\ chan = <<>> /\ inforce = << "none" >> /\ ninst = 0
+\* Unmarshal / Load(path): a good document is SENT on the channel - the send blocks while the channel is full, it is
+\* never dropped and never overtakes; a bad document is refused and nothing is sent.
 Load(d) ==
    /\ Len(hist) < MaxLoads
+   /\ Good(d) => Len(chan) < ChanCap
    /\ hist' = Append(hist, d)
    /\ IF Good(d)
       THEN published' = Append(published, [doc |-> d, val |-> Fresh(d)]) /\ current' = Fresh(d)
-      ELSE UNCHANGED << published, current >>
-Next == \E d \in Docs : Load(d)
-Spec == Init /\ [][Next]_vars
+           /\ chan' = Append(chan, Fresh(d))
+      ELSE UNCHANGED << published, current, chan >>
+   /\ UNCHANGED << inforce, ninst >>
+\* loader.go updates(): take the next value, build providers and filters from IT ALONE, replace what was in force
+Install ==
+   /\ chan # <<>>
+   /\ inforce' = Head(chan) /\ chan' = Tail(chan) /\ ninst' = ninst + 1
+   /\ UNCHANGED << hist, published, current >>
+Next == (\E d \in Docs : Load(d)) \/ Install
+Spec == Init /\ [][Next]_vars /\ WF_vars(Install)
 
 \* ---- properties ------------------------------------------------------------
 GoodIdx == { i \in 1..Len(hist) : Good(hist[i]) }
 LastGood == IF GoodIdx = {} THEN << "none" >> ELSE Fresh(hist[CHOOSE i \in GoodIdx : \A j \in GoodIdx : i >= j])
 ReloadEqualsFresh == current = LastGood
 PublishedOnlyGrows == [][IsPrefix(published, published')]_vars
+\* the pipeline loses nothing and reorders nothing; once drained, lookups are answered from the last good document
+PipelineExact == ninst + Len(chan) = Len(published)
+                 /\ \A k \in 1..Len(chan) : chan[k] = published[ninst + k].val
+                 /\ inforce = (IF ninst = 0 THEN << "none" >> ELSE published[ninst].val)
+DrainedEqualsFresh == chan = <<>> => inforce = LastGood
+EventuallyInForce == <>[](inforce = current) \/ []<>(Len(hist) < MaxLoads)
 PublishedMatchesHistory == Len(published) = Cardinality(GoodIdx) /\ \A k \in 1..Len(published) : published[k].val = Fresh(published[k].doc)
 =============================================================================
